@@ -25,7 +25,8 @@ def exhaustive(tier):
 
 
 def model_runs(tier):
-    return []
+    from harness import algo
+    return algo.gen_null_worklist(tier)
 
 
 hashseeds = c08.hashseeds
@@ -45,11 +46,11 @@ OPS = ("remove_useless_symbols", "remove_epsilon", "eliminate_unit_productions",
 
 def replay(case):
     from harness import cfgh, guard
-    g, start, tagged = cfgh.make(case["prods"], case["vpool"], case["tpool"])
+    g, start, tagged = cfgh.make(case["prods"], case["vpool"], case["tpool"], declare=case.get("declare", False))
     G = cfgh.project(g)
     evs = [{"op": "new", "G": G, "start": start, "prods": tagged}]
     for op in OPS:
-        g2, _, _ = cfgh.make(case["prods"], case["vpool"], case["tpool"])     # fresh object per call (C19 owns histories)
+        g2, _, _ = cfgh.make(case["prods"], case["vpool"], case["tpool"], declare=case.get("declare", False))     # fresh object per call (C19 owns histories)
         r = guard.call(getattr(g2, op), timeout=4.0)
         ev = cfgh.result_event(op, G, r, L=case["L"])
         if op == "to_normal_form" and r[0] == "ok":
